@@ -7,6 +7,7 @@
 From V Require Import Base.Common Model.C03_Alloc Model.C04_ClusterOps Proofs.C04_ClusterOps Model.C04_Check Proofs.C04_Check.
 From V Require Import Proofs.C03_Monitor Proofs.C04_Monitor.
 From V Require Import Model.C04_Guards Gen.C04Guards Proofs.C04_Guards.
+From Coq Require Import String.
 From Coq Require Import Permutation.
 Open Scope Z_scope.
 
